@@ -23,7 +23,8 @@ RULE = (
     "histories (all entities linked, no stale group members) reports no error, no fix and does not change the written "
     "bytes; (2) convergence - every combination of k<=3 faults from a tag-level catalogue (dangling owner, dangling "
     "pointer, duplicate handle, invalid handle text, undefined linetype/text style/layer/block, missing SEQEND, orphaned "
-    "LAYOUT, invalid colour/lineweight value) injected into valid files of all versions: load (strict, else recover), "
+    "LAYOUT, lost ACAD_LAYOUT entry, invalid colour/lineweight value, invalid values of every float attribute of every "
+    "entity type, every pointer field of the OBJECTS section, owner fault on every entity type) injected into valid files of all versions: load (strict, else recover), "
     "audit, second audit applies no fix and lists the same errors, save, strict reload, harness-owned structural "
     "validation of the saved file. non-trivial = at least one fault / mutation; distinct by hash."
 )
@@ -324,6 +325,9 @@ def base_files(ctx):
     return out
 
 
+BAD_NUMBERS = ["-1.5", "0.0", "1e+11", "-1e+11"]
+
+
 def fault_sites(tags):
     """(kind, index) of applicable faults"""
     sites = []
@@ -350,6 +354,11 @@ def fault_sites(tags):
                     sites.append(("bad-color", i))
                 if c == 370:
                     sites.append(("bad-lineweight", i))
+                if 40 <= c <= 48:
+                    # invalid attribute VALUES of the float attributes (radius, height, axis ratio, parameters ...):
+                    # negative, zero, huge, huge negative
+                    for k in range(len(BAD_NUMBERS)):
+                        sites.append((f"bad-number{k}", i))
                 if c == 2 and tags[i - 1][0] != 0 and any(t == (0, "INSERT") for t in tags[max(0, i - 12):i]):
                     sites.append(("undef-block", i))
                 if (c, v) == (0, "SEQEND"):
@@ -393,6 +402,8 @@ def apply_faults(tags, faults, used_handles):
             tags[i] = (c, "UNDEFINED_" + kind[6:].upper())
         elif kind == "bad-color":
             tags[i] = (c, "300")
+        elif kind.startswith("bad-number"):
+            tags[i] = (c, BAD_NUMBERS[int(kind[10:])])
         elif kind == "bad-lineweight":
             tags[i] = (c, "999")
         elif kind == "missing-seqend":
@@ -505,11 +516,13 @@ def oracle(ctx):
     files = base_files(ctx)
     for version, tags in files:
         sites = fault_sites(tags)
+        site_set = set(sites)
         by_kind = {}
         for k, i in sites:
             by_kind.setdefault(k, []).append((k, i))
         # every single fault kind at a few positions, then random pairs and triples
-        singles = [f for k in sorted(by_kind) for f in rng.sample(by_kind[k], min(len(by_kind[k]), ctx.n(2, 12)))]
+        singles = [f for k in sorted(by_kind) if not k.startswith("bad-number")
+                   for f in rng.sample(by_kind[k], min(len(by_kind[k]), ctx.n(2, 12)))]
         # every entry pointer of the root dictionary (the first DICTIONARY of OBJECTS), one fault each
         first_dict = next((i for i, t in enumerate(tags) if t == (0, "DICTIONARY")), None)   # none in R12
         j = len(tags) if first_dict is None else first_dict + 1
@@ -534,8 +547,39 @@ def oracle(ctx):
                         break
                     m += 1
             k += 1
+        # every (entity type, float attribute) x invalid values: all values in thorough, one value per pair in quick
+        # (rotating with the version, so that every value meets every pair over the versions)
+        vi = (["R12"] + VERS).index(version)
+        seen_pairs = {}
+        typ = None
+        for k, (c, v) in enumerate(tags):
+            if c == 0:
+                typ = v
+            if 40 <= c <= 48 and ("bad-number0", k) in site_set:
+                if (typ, c) not in seen_pairs:
+                    seen_pairs[(typ, c)] = k
+        for j, ((typ, c), k) in enumerate(sorted(seen_pairs.items())):
+            for n in range(len(BAD_NUMBERS)):
+                if not ctx.quick or n == (vi + j) % len(BAD_NUMBERS):
+                    singles.append((f"bad-number{n}", k))
+        # EVERY pointer field (340/350/360) of the objects of the OBJECTS section, dangling: all versions in thorough, one
+        # version per run in quick (chosen by the run seed), the others sampled above
+        if not ctx.quick or vi == 1 + (ctx.seed % len(VERS)):
+            singles += by_kind.get("dangling-pointer", [])
         for f in dict.fromkeys(singles):
             converge(ctx, version, tags, [f], VCODE[version])
+        # directed pairs: the owner fault together with the loss of the SEQEND on the same POLYLINE / INSERT (the repair of
+        # the one must cope with the deletion by the other)
+        for _, si in by_kind.get("missing-seqend", []):
+            j = si - 1
+            while j > 0 and not (tags[j][0] == 0 and tags[j][1] in ("POLYLINE", "INSERT")):
+                j -= 1
+            m = j + 1
+            while m < len(tags) and tags[m][0] != 0:
+                if tags[m][0] == 330:
+                    converge(ctx, version, tags, [("dangling-owner", m), ("missing-seqend", si)], VCODE[version])
+                    break
+                m += 1
         for _ in range(ctx.n(12, 300)):
             k = rng.choice([2, 3])
             fs = rng.sample(sites, k)
